@@ -250,6 +250,12 @@ class TypeInfer:
         def bind(name, t):
             if name in multi:
                 return
+            # `found = None` ... `found = <object>`: an Optional[T] local has the nominal type T
+            if t == ('none',) and env.get(name) is not None:
+                return
+            if env.get(name) == ('none',) and t is not None:
+                env[name] = t
+                return
             if name in env and env[name] is not None and t is not None and env[name] != t:
                 u = self._unify(env[name], t)
                 env[name] = u
